@@ -418,6 +418,106 @@ Fixpoint clear_prefix_node (fuel : nat) (m : mem) (p : option addr) (prefix : ke
     end
   end.
 
+(* deleteNodesLimit: the loop over branch.Children of the prepared branch a1.
+   (The panic "got branch with all nil children" is not modelled: no operation creates such a
+   branch.)  Results: new parent pointer, valuesDeleted. *)
+Definition dnl_loop (rec : mem -> option addr -> N -> mem * option addr * N) (a1 : addr) (pk : key)
+  : nat -> nat -> mem -> nat -> N -> N -> mem * option addr * N :=
+  fix loop n i m nilc limit vd :=
+    match n with
+    | O =>
+      (m, None, match hp m a1 with
+                | Some c => if is_some (c_sv c) then (vd + 1)%N else vd
+                | None => vd
+                end)
+    | S n' =>
+      match hp m a1 with
+      | None => (m, None, vd)
+      | Some c =>
+        match nth i (c_kids c) None with
+        | None => loop n' (S i) m nilc limit vd
+        | Some ch =>
+          let '(m1, ch', d) := rec m (Some ch) limit in
+          let m2 := wr m1 a1 (fun c' => set_kids_c (set_nth i ch' (c_kids c')) c') in
+          let nilc' := match ch' with None => S nilc | Some _ => nilc end in
+          let limit' := (limit - d)%N in
+          let vd' := (vd + d)%N in
+          let '(m3, np) := handle_deletion m2 a1 pk in
+          if (nilc' =? 16) && negb (is_some (c_sv c)) then (m3, None, vd')
+          else if (limit' =? 0)%N then (m3, Some np, vd')
+          else loop n' (S i) m3 nilc' limit' vd'
+        end
+      end
+    end.
+
+Fixpoint dnl (fuel : nat) (m : mem) (p : option addr) (limit : N) {struct fuel} : mem * option addr * N :=
+  match fuel with
+  | O => (m, p, 0%N)
+  | S f =>
+    if (limit =? 0)%N then (m, p, 0%N)
+    else
+      match p with
+      | None => (m, None, 0%N)
+      | Some a =>
+        match hp m a with
+        | None => (m, p, 0%N)
+        | Some c =>
+          if negb (c_isb c) then (reg m a, None, 1%N)
+          else
+            let '(m1, a1) := prep m a true in
+            dnl_loop (dnl f) a1 (c_pk c) 16 0 m1 (16 - count_kids (c_kids c)) limit 0%N
+        end
+      end
+  end.
+
+Definition is_none {A} (o : option A) : bool := match o with None => true | Some _ => false end.
+
+(* clearPrefixLimitAtNode / clearPrefixLimitBranch / clearPrefixLimitChild:
+   (new parent, valuesDeleted, allDeleted) *)
+Fixpoint clear_limit_node (fuel : nat) (m : mem) (p : option addr) (prefix : key) (limit : N) {struct fuel}
+  : mem * option addr * N * bool :=
+  match fuel with
+  | O => (m, p, 0%N, true)
+  | S f =>
+    match p with
+    | None => (m, None, 0%N, true)
+    | Some a =>
+      match hp m a with
+      | None => (m, p, 0%N, true)
+      | Some c =>
+        let pk := c_pk c in
+        if negb (c_isb c) then
+          if is_prefix prefix pk then (reg m a, None, 1%N, true) else (m, Some a, 0%N, true)
+        else if is_prefix prefix pk then
+          let '(m1, np, vd) := dnl (cfuel m) m (Some a) limit in (m1, np, vd, is_none np)
+        else if (length prefix =? S (length pk)) && is_prefix (removelast prefix) pk then
+          let idx := nth (length pk) prefix 0 in
+          match nth idx (c_kids c) None with
+          | None => (m, Some a, 0%N, true)
+          | Some ch =>
+            let '(m1, ch', vd) := dnl (cfuel m) m (Some ch) limit in
+            if (vd =? 0)%N then (m1, Some a, 0%N, false)
+            else
+              let '(m2, a2) := prep m1 a true in
+              let m3 := wr m2 a2 (fun c' => set_kids_c (set_nth idx ch' (c_kids c')) c') in
+              let '(m4, b) := handle_deletion m3 a2 prefix in
+              (m4, Some b, vd, is_none ch')
+          end
+        else if (length prefix <=? length pk) || (cpl pk prefix <? length pk) then (m, Some a, 0%N, true)
+        else
+          let idx := nth (length pk) prefix 0 in
+          let '(m1, ch', vd, alld) :=
+              clear_limit_node f m (nth idx (c_kids c) None) (skipn (S (length pk)) prefix) limit in
+          if (vd =? 0)%N then (m1, Some a, 0%N, alld)
+          else
+            let '(m2, a2) := prep m1 a true in
+            let m3 := wr m2 a2 (fun c' => set_kids_c (set_nth idx ch' (c_kids c')) c') in
+            let '(m4, b) := handle_deletion m3 a2 prefix in
+            (m4, Some b, vd, alld)
+      end
+    end
+  end.
+
 End Model.
 
 (* ------------------------------------------------------------------ reads *)
@@ -487,6 +587,13 @@ Inductive step :=
 | HashOp (i : nat).                      (* Hash() (fills the Merkle-value caches) *)
 
 Inductive res := ROk | RPanic | RBad.
+
+(* the handle a step mutates *)
+Definition mutated_handle_pre (s : step) : option nat :=
+  match s with
+  | Put i _ _ | Del i _ | Clear i _ => Some i
+  | _ => None
+  end.
 
 Section Run.
 Variable H : list byte -> list byte.
@@ -594,14 +701,40 @@ Definition view (st : state) (i : nat) : option (list byte * list (list byte * v
   | None => None
   end.
 
+(* ---- ClearPrefixLimit: part of the executable model and of the correspondence check; the
+   isolation theorem (Properties.v) is about the [step] histories above *)
+Inductive xstep :=
+| Core (s : step)
+| ClearLimit (i : nat) (p : list byte) (limit : N).
+
+Definition clear_limit_handle (m : mem) (hd : handle) (p : list byte) (limit : N)
+  : mem * handle * N * bool :=
+  if (limit =? 0)%N then (m, hd, 0%N, false)
+  else
+    let prefix := trim_zero_suffix (key_le_to_nibbles p) in
+    let '(m1, r, vd, alld) :=
+        clear_limit_node H (h_gen hd) (h_root hd) (S (length prefix)) m (h_root hd) prefix limit in
+    (m1, mkH (h_gen hd) r (h_v1 hd), vd, alld).
+
+(* result of a ClearPrefixLimit step: (deleted, allDeleted) *)
+Definition xexec (st : state) (s : xstep) : state * res * option (N * bool) :=
+  match s with
+  | Core s0 => let '(st1, r) := exec st s0 in (st1, r, None)
+  | ClearLimit i p limit =>
+    match nth_error (s_hs st) i with
+    | Some hd =>
+      let '(m1, hd1, vd, alld) := clear_limit_handle (s_mem st) hd p limit in
+      (set_handle st i hd1 m1, ROk, Some (vd, alld))
+    | None => (st, RBad, None)
+    end
+  end.
+
+Definition xmutated_handle (s : xstep) : option nat :=
+  match s with Core s0 => mutated_handle_pre s0 | ClearLimit i _ _ => Some i end.
+
 End Run.
 
-(* the handle a step mutates *)
-Definition mutated_handle (s : step) : option nat :=
-  match s with
-  | Put i _ _ | Del i _ | Clear i _ => Some i
-  | _ => None
-  end.
+Definition mutated_handle (s : step) : option nat := mutated_handle_pre s.
 
 (* the copy-on-write contract: a handle is not mutated after a snapshot was taken from it *)
 Fixpoint frozen_ok (frozen : list nat) (hist : list step) : bool :=
